@@ -2181,6 +2181,9 @@ class Exec:
         if f.kind == 'pyfunc':           # a callable value produced by a library model (e.g. an interp1d object)
             return f.target(self, st, args, kwargs, node)
         if f.kind == 'lib':
+            ha = self.unit.abstract.get('call:' + f.target.split('.')[-1])
+            if ha is not None:        # the unit states its own (abstract) contract for this library function
+                return ha(self, st, args, kwargs, node)
             h = lib.HANDLERS.get(f.target)
             if h is None:
                 raise Unsupported('library function %s has no model' % f.target)
